@@ -245,7 +245,7 @@ def run(tier, seed, only=None):
         sess = setup(w, tier=tier)
         hs = [h for h in harnesses(tier) if not only or h.name in only]
         hs.sort(key=lambda h: -h.timeout)   # the long-running tokenizer obligations first
-        res = sess.run_all(hs, jobs=int(os.environ.get("VERIF_JOBS", "16" if tier == "quick" else "10")))
+        res = sess.run_all(hs, jobs=int(os.environ.get("VERIF_JOBS", "16" if tier == "quick" else "8")))
         out.extra["kani_build_s"] = round(sess.build_s, 1)
         out.extra["repo_state"] = w.repo_state
         out.extra["injected"] = w.injected
